@@ -1013,13 +1013,9 @@ impl BodyPredicate {
         match self {
             BodyPredicate::Positive(atom) | BodyPredicate::Negated(atom) => atom.variables(),
             BodyPredicate::Comparison(left, _, right) => {
-                let mut vars = HashSet::new();
-                if let Term::Variable(v) = left {
-                    vars.insert(v.clone());
-                }
-                if let Term::Variable(v) = right {
-                    vars.insert(v.clone());
-                }
+                // including the variables inside arithmetic operands (`X + Z < 10`)
+                let mut vars = left.variables();
+                vars.extend(right.variables());
                 vars
             }
             BodyPredicate::HnswNearest {
